@@ -40,12 +40,12 @@ def run(tier, replay=None):
     # every single operation; every ordered pair in thorough, a seeded sample of the pairs in quick
     singles = [c for c in bfs if len(c["hist"]) == 1]
     pairs = [c for c in bfs if len(c["hist"]) == 2]
-    pair_budget = 2600 if tier == "quick" else len(pairs)
+    pair_budget = 2600 if tier == "quick" else 12000
     if len(pairs) > pair_budget:
         pairs = rnd.sample(pairs, pair_budget)
     bfs = singles + pairs
     sim = [c for c in gen.dedupe(sim, key) if len(c["hist"]) >= 3]
-    budget = 1500 if tier == "quick" else 30000
+    budget = 1500 if tier == "quick" else 10000
     if len(sim) > budget:
         sim = rnd.sample(sim, budget)
     nbfs = len(bfs)
